@@ -55,7 +55,8 @@ class Run:
     pass
 
 
-def execute(ctx, tool, k, sched_seed, plan=None, sticky=False, read_faults=None, mutate=None, again=None):
+def execute(ctx, tool, k, sched_seed, plan=None, sticky=False, read_faults=None, mutate=None, again=None,
+            keep_pools=False):
     """One execution of the drawn tool case in a fresh run directory (`again` = an earlier Run: the same
     request is executed once more where that run left everything - inputs, cwd and its own output)."""
     root = os.path.join(ctx.scratch, f"run{k}")
@@ -65,7 +66,8 @@ def execute(ctx, tool, k, sched_seed, plan=None, sticky=False, read_faults=None,
     snaps = [common.snapshot(i) for i in inputs]
     ctx.pool_src = RandomSource(sched_seed) if sched_seed else ConstSource()
     ctx.pool_seq = 0
-    ctx.reset_pools()
+    if not keep_pools:
+        ctx.reset_pools()
     ctx.fault_plan = dict(plan or {})
     ctx.fault_sticky = sticky
     ctx.sticky_paths = set()
@@ -195,6 +197,32 @@ def run_case(ctx):
             first = execute(ctx, tool.varied(), 0, sched_seed)
             check_run(ctx, tool, first, {**sig, "arm": "rerun-first"}, "earlier run with another selection")
             ctx.probe("rerun_after_varied_request")
+        elif name in ("chef", "combine", "colander", "mandoline", "whip", "chk2plt") and src.flag("rerun.elsewhere", 3):
+            # ... or the same tool served the same request before, in this process, in ANOTHER run directory,
+            # everything named relatively; FORK pools: whatever workers outlive the first run keep its directory
+            tool.opts["in_form"] = "rel"
+            if tool.opts.get("out") == "abs":
+                tool.opts["out"] = "rel"
+            shutil.rmtree(pilot.root, ignore_errors=True)
+            old_fork, ctx.fork_mode = ctx.fork_mode, True
+            try:
+                first = execute(ctx, tool, 5, sched_seed)
+                check_run(ctx, tool, first, {**sig, "arm": "rerun-elsewhere-first"}, "earlier run in another directory")
+                r2 = execute(ctx, tool, 6, sched_seed + 1, keep_pools=True)
+                check_run(ctx, tool, r2, {**sig, "arm": "rerun-elsewhere"}, "the same request in a second run directory")
+                if first.outcome.ok and r2.outcome.ok and first.digest != r2.digest and tool.writer:
+                    raise Violation({**sig, "oracle": "second-directory-product-differs", "arm": "rerun-elsewhere"},
+                                    f"{name}: the same request on the same input, served in a second run directory after "
+                                    f"a first one, returned normally with another product; form={tool.describe()}")
+            finally:
+                ctx.fork_mode = old_fork
+                ctx.reset_pools()
+            ctx.nontrivial = True
+            ctx.probe("rerun_in_another_directory")
+            shutil.rmtree(first.root, ignore_errors=True)
+            shutil.rmtree(r2.root, ignore_errors=True)
+            ctx.case_key = common.key_of(keybase + ["elsewhere"])
+            return
         r2 = execute(ctx, tool, 0, sched_seed + 1, again=first)
         check_run(ctx, tool, r2, {**sig, "arm": "rerun"}, "second run of the same request")
         ctx.nontrivial = True
